@@ -11,19 +11,19 @@ CLAIMED = {
     # id: (engine, design_ref, level text, level note)
     "C03": ("emusim", "6.2",
             "Generated RV64IMA programs (all instruction classes, boundary immediates/shifts, overlapping accesses of different widths, image-straddling and untouched memory, loops, bad jumps) are loaded by the real pipeline and stepped through the real emulator over Overlay(Bytes, Sparse) next to an independent RISC-V interpreter; a simulated provider supplies unknown state, a simulated operator edits registers, memory and pc between steps; after every step: failure iff not at an instruction start, exact step report, registers / known memory / ip equal to the reference, no panic.",
-            "Trusted: rvref interpreter. Known open findings (narrow register fill, accesses wrapping around 2^64) are listed in known_findings.json; after a narrow fill the reference is resynchronised to the emulator's assumption."),
+            "Trusted: rvref interpreter (known-answer tests: ./check selftest-models). Under C03 the provider answers a question that must never be asked (state the emulator already knew) with the complement of the truth. Known open findings (narrow register fill, accesses wrapping around 2^64) are listed in known_findings.json; after a narrow fill the reference is resynchronised to the emulator's assumption."),
     "C04": ("emusim", "6.2",
             "Same simulated machine: every provider request is an event checked against a known-set model (pre-known, program image, written by program or operator, supplied earlier): requested state was never known and never requested before; supplied values are re-checked at every later reported read.",
-            "Trusted: known-set model in the harness; provider answers truthfully at the requested width."),
+            "Trusted: known-set model in the harness; provider answers truthfully at the requested width. A step refused for reaching the end of the address space (open C03 finding) is stepped over and the bookkeeping continues."),
     "C05": ("movesim", "6.3",
             "Seeded codes (synthetic ISA and real RV64IMA words) and move histories; every block whose order changed is emulated through the real emulator on a fresh unmoved code and on the moved code from identical pseudo-random machine states (simulated lazy memory provider); final registers, memory and instruction pointer must agree; unmoved instructions single-stepped after block moves.",
-            "Trusted: harness provider and state rendering; emulator is the real one on both sides (relational oracle)."),
+            "Trusted: harness provider and state rendering; emulator is the real one on both sides (relational oracle). A block is run until control leaves it or returns to its start (one pass for a basic block)."),
     "C06": ("movesim", "6.3",
             "At the initial state and after every move of a seeded history, every adjacent pair that is independent by the statement's five clauses (computed by the harness from the effects) is probed with a real Move(i,i+1), which must be accepted and is then undone.",
             "Trusted: harness independence computation written from the statement."),
     "C07": ("movesim", "6.3",
             "Seeded histories of instruction moves, block moves and lookups with valid/boundary/invalid indices; after every event the real code is compared with a sequence model (admission iff within reported bounds, rejection changes nothing, rotation, address tiling, lookups, dependency order via the VerifDeps hook, block moves permute only).",
-            "Trusted: sequence model; dependency edges read through the verif hook."),
+            "Trusted: sequence model; dependency edges read through the verif hook. Lookup sweeps alternate their direction; a third of the histories look nothing up before their first accepted block move."),
     "C20": ("loadsim", "6.4",
             "Simulated disk under the ELF loader: seeded well-formed images (ELF32/64, LE/BE, all types, odd section/segment layouts) with injected storage faults (truncation, torn/lost writes, bit flips) and read faults (EIO, short reads through the ReaderAt hook); the loader's answer is judged against an independent ELF reader on the bytes delivered; must-reject cases must be rejected; no panic.",
             "Trusted: elfref reader/builder. Images needing 64 MiB..2^48 B of zero padding are not loaded in-process."),
@@ -50,13 +50,13 @@ CLAIMED = {
             "Trusted: fresh rendering from deps.Code's public API; marks and column padding excluded."),
     "C24": ("uisim", "6.5",
             "Sessions biased to terminal resizes before renders (1-300 rows): no frame may exceed the rows in force; direct driver renders the live listing view, emulator composite and memory view with Print(n) for n from the declared minimum to minimum+40: no panic, at most n lines, exactly n for fixed-height views.",
-            "Trusted: line counting of captured output. A render error returned to the caller is accepted (not a crash, not an over-write)."),
+            "Trusted: line counting of captured output. Run() ending in 'element printing failed' on a terminal that grants the declared minimum is a failure of the fixed-height clause (except the documented listing-shorter-than-its-minimum case); an error returned by a direct Print is not judged."),
     "C30": ("uisim", "6.5",
             "Sessions biased to emulation value prompts, regmod and memory-view 'address': numbers are spelled in random accepted bases/sign/case; the address must select the right row or be echoed exactly in the 'no line' error, other arguments must be answered with an error; typed values must appear in the live emulator state as the integer modulo 2^(8w); malformed answers must be rejected and the same item re-prompted.",
-            "Trusted: the harness's own strict parser of the checked forms; live state read at simulator re-entry."),
+            "Trusted: the harness's own strict parser of the checked forms; live state read at simulator re-entry. One run in six is the prompt lab: the real emulation mode and state provider over a synthetic code model, value prompts of 1..255 bytes."),
     "C31": ("uisim", "6.5",
             "Sessions biased to navigation: cursor parsed from frames before/after down/up/goto/entrypoint/find against a model (error => unchanged; else +-N, N, entry instruction line, first cyclic regex match after the cursor).",
-            "Trusted: model texts for find use single-token, anchor-free patterns only (padding-independent)."),
+            "Trusted: model texts for find; patterns with blanks or anchors are judged against the exact line text (indentation and column padding measured on the screen) only when that reconstruction reproduces every displayed row."),
     "C32": ("uisim", "6.5",
             "Sessions that emulate and then open memory views, plus direct whole-view renders: rows must be exactly one per 16-byte window overlapping the live memory's stored blocks, ascending, with each stored byte's value, '..' for absent bytes, one ellipsis row between non-consecutive rows; 'address' selects the row of a stored byte or reports absence.",
             "Trusted: expected rows are computed from the live memory object's Blocks()/Load() (their correctness is C14-C16)."),
